@@ -538,8 +538,8 @@ type cAug struct {
 	flag   string
 }
 
-func corpusCase(label string, names, texts []string, nsmod map[string]string, augs []cAug, seed int64) rescorr.Case {
-	k := know{Shape: "corpus:" + label, Blocks: map[string][2]int{}, ExpectClean: true, NSMod: nsmod, Seed: seed, MaxVariants: 24}
+func corpusCase(label string, names, texts []string, nsmod map[string]string, augs []cAug, forest []gen.C07Node, seed int64) rescorr.Case {
+	k := know{Shape: "corpus:" + label, Blocks: map[string][2]int{}, ExpectClean: true, NSMod: nsmod, Seed: seed, MaxVariants: 24, Forest: forest}
 	id := 0
 	for fi, t := range texts {
 		first, cnt := 0, 0
@@ -557,7 +557,7 @@ func corpusCase(label string, names, texts []string, nsmod map[string]string, au
 			arg := strings.Fields(line)[1]
 			mod := strings.TrimSuffix(names[fi], ".yang")
 			a := &gen.C07Aug{ID: id, File: names[fi], Line: li + 1, Module: mod, TargetArg: strings.Trim(arg, `"`), Expect: augs[id].expect,
-				Nodes: augs[id].nodes, Shape: "corpus", UniqueNames: true}
+				Nodes: augs[id].nodes, Shape: "corpus", UniqueNames: augs[id].flag != "notunique", Childless: strings.HasPrefix(label, "childless")}
 			switch augs[id].flag {
 			case "subnoprefix":
 				a.SubNoPrefix = true
@@ -600,7 +600,11 @@ func corpus(seed int64) []rescorr.Case {
 	ap := func(n ...gen.C07Node) cAug { return cAug{expect: gen.C07Apply, nodes: n} }
 	var out []rescorr.Case
 	add := func(label string, names, texts []string, augs ...cAug) {
-		out = append(out, corpusCase(label, names, texts, abc, augs, seed+int64(len(out))))
+		out = append(out, corpusCase(label, names, texts, abc, augs, nil, seed+int64(len(out))))
+	}
+	// addF: with the complete expected forest, so that nodes nobody should have added are seen
+	addF := func(label string, names, texts []string, forest []gen.C07Node, augs ...cAug) {
+		out = append(out, corpusCase(label, names, texts, abc, augs, forest, seed+int64(len(out))))
 	}
 	// 1. chain of four links over three modules in the worst order: the module visited first holds the
 	// last links, and writes the dependent one first
@@ -716,6 +720,30 @@ func corpus(seed int64) []rescorr.Case {
 			"  augment \"/pa:x/pa:act\" { leaf x3 { type string; } }\n" +
 			"  augment \"/pa:x\" { leaf ok { type string; } }\n}\n"},
 		cAug{expect: gen.C07NoChildren}, cAug{expect: gen.C07NoChildren}, cAug{expect: gen.C07NoChildren}, ap(nd("a", "/a/x/ok", "urn:b")))
+	// 15./16. a childless container inside a grouping that is used at three places: every instance is a
+	// node of its own. The same child name into two instances does not collide; an instance nobody
+	// augments stays empty.
+	gbase := []string{
+		hdr("a") + "  grouping g {\n    container e;\n  }\n  container x {\n    uses g;\n  }\n  container y {\n    uses pa:g;\n  }\n}\n",
+		hdr("b", "a") + "  container z {\n    uses pa:g;\n  }\n",
+		hdr("c", "a"),
+	}
+	gforest := func(extra ...gen.C07Node) []gen.C07Node {
+		return append([]gen.C07Node{nd("a", "/a", "urn:a"), nd("a", "/a/x", "urn:a"), nd("a", "/a/x/e", "urn:a"), nd("a", "/a/y", "urn:a"),
+			nd("a", "/a/y/e", "urn:a"), nd("b", "/b", "urn:b"), nd("b", "/b/z", "urn:b"), nd("b", "/b/z/e", "urn:b"), nd("c", "/c", "urn:c")}, extra...)
+	}
+	addF("childless-same-name-two-instances", []string{"a.yang", "b.yang", "c.yang"}, []string{gbase[0],
+		gbase[1] + "  augment \"/pa:x/pa:e\" { leaf n1 { type string; } }\n}\n",
+		gbase[2] + "  augment \"/pa:y/pa:e\" { leaf n1 { type string; } }\n}\n"},
+		gforest(nd("a", "/a/x/e/n1", "urn:b"), nd("a", "/a/y/e/n1", "urn:c")),
+		cAug{expect: gen.C07Apply, nodes: []gen.C07Node{nd("a", "/a/x/e/n1", "urn:b")}, flag: "notunique"},
+		cAug{expect: gen.C07Apply, nodes: []gen.C07Node{nd("a", "/a/y/e/n1", "urn:c")}, flag: "notunique"})
+	addF("childless-one-instance-only", []string{"a.yang", "b.yang", "c.yang"}, []string{gbase[0],
+		gbase[1] + "}\n",
+		gbase[2] + "  augment \"/pa:x/pa:e\" { container n1 { leaf q { type string; } } }\n" +
+			"  augment \"/pa:y\" { leaf n2 { type string; } }\n}\n"},
+		gforest(nd("a", "/a/x/e/n1", "urn:c"), nd("a", "/a/x/e/n1/q", "urn:c"), nd("a", "/a/y/n2", "urn:c")),
+		ap(nd("a", "/a/x/e/n1", "urn:c")), ap(nd("a", "/a/y/n2", "urn:c")))
 	return out
 }
 
@@ -769,7 +797,7 @@ func main() {
 	const batch = 4000
 	distinct := lib.NewDistinct()
 	all := lib.NewDistinct()
-	var clean, withErr, outside, skipped, outsideClaim, variantsRun, expClean, expErr, exhaustive, total int64
+	var clean, withErr, outside, skipped, outsideClaim, variantsRun, expClean, expErr, exhaustive, total, childlessSets, childlessSets2 int64
 	shapeCount := map[string]int64{}
 	expectCount := map[string]int64{}
 	originCount := map[string]int64{}
@@ -794,6 +822,18 @@ func main() {
 				expClean++
 			} else {
 				expErr++
+			}
+			childless := map[string]bool{}
+			for _, a := range k.Augs {
+				if a.Childless && a.Expect == gen.C07Apply {
+					childless[a.TargetPath+"|"+a.TargetArg] = true
+				}
+			}
+			if len(childless) > 0 {
+				childlessSets++
+			}
+			if len(childless) > 1 {
+				childlessSets2++
 			}
 			for _, a := range k.Augs {
 				expectCount[a.Expect]++
@@ -936,6 +976,8 @@ func main() {
 	res.Distribution["go_sets_with_errors"] = withErr
 	res.Distribution["expected_clean_sets"] = expClean
 	res.Distribution["expected_error_sets"] = expErr
+	res.Distribution["sets_augmenting_a_childless_grouping_container"] = childlessSets
+	res.Distribution["sets_augmenting_two_or_more_childless_instances"] = childlessSets2
 	res.Distribution["outside_model"] = outside
 	res.Distribution["go_parse_rejected"] = skipped
 	res.Distribution["outside_claim(implicit case as target)"] = outsideClaim
